@@ -304,7 +304,8 @@ def value_for(draw, cfg, codec, exact=True, typed_as_str=False):
         if typed_as_str:
             # the number in another guise: a digit string (what the CSV tools pass), an integral float, a Decimal with
             # a zero fraction or an exponent - all of them whole numbers that fit the field
-            kind = draw(st.sampled_from(['int', 'int', 'str', 'str', 'float', 'decimal-fraction', 'decimal-exponent']))
+            kind = draw(st.sampled_from(['int', 'int', 'str', 'str', 'float', 'decimal-fraction', 'decimal-exponent'] if typed_as_str is True
+                                        else ['int', 'int', 'int', 'float', 'decimal-fraction', 'decimal-exponent']))
             if kind == 'str':
                 return str(v)
             if kind == 'float' and v < 2 ** 53:
